@@ -843,8 +843,10 @@ pub fn generate(profile: &Profile, seed: u64) -> Trace {
         use_new: false,
         derived: false,
         build_fault: None,
+        builder_order: 0,
     };
     let mut cfg = cfg;
+    cfg.builder_order = rng.below(4);
     // a third of the runs use the processor() generated by the derive macro, a few the deprecated constructor
     cfg.derived = rng.chance(1, 3);
     if rng.chance(1, 12) {
